@@ -88,14 +88,12 @@ func VfC35_Relay() {
 //
 //vf:unwind 40
 //vf:concretize 8
-//vf:paths quick=200000 thorough=3000000
-//vf:bound members quick: lists of 0..2 entries, thorough: 0..3; k in 0..4; rand.Intn symbolic
+//vf:paths quick=200000 thorough=200000
+//vf:bound members lists of 0..2 entries (names possibly equal), every filter outcome; k in 0..4; every sequence of rand.Intn results
 func VfC35_KRandom() {
-	nmax := 2
-	if vfTier() == 1 {
-		nmax = 3
-	}
-	n := vfChoice("n", nmax+1)
+	// lists of 3 with all 9 symbolic picks are ~6 million paths (1.4 M explored in 20 min without finishing): both
+	// tiers use lists of 0..2, where the 3*n retry bound and the duplicate-name check are already exercised
+	n := vfChoice("n", 3)
 	members := make([]Member, n)
 	var filtered [3]bool
 	for i := 0; i < n; i++ {
